@@ -227,6 +227,28 @@ def one_case(ctx, alg, iso, cfg, name, op):
         ctx.violation('result depends on operand layout', cid, blades=[alg.bin2canon[k] for k in bad[:6]],
                       canonical_result=show_elem({k: g1.get(k, 0) for k in bad[:4]}),
                       variant_result=show_elem({k: g2.get(k, 0) for k in bad[:4]}), **wit)
+    # the two layouts of the second operand side by side in one list / tuple operand: each element of the result sequence is the
+    # result for that element (which denotes the same multivector both times)
+    if op in ops.BINARY and not bad and rng.random() < 0.25:
+        seq_t = rng.choice((list, tuple))
+        order = rng.choice(((0, 1), (1, 0), (0, 1, 1), (1, 0, 0)))
+        elems = [base[1], var[1]]
+        seq = seq_t(elems[i] for i in order)
+        sts, rs = ctx.guarded(to, lambda: getattr(alg, op)(base[0], seq))
+        if sts == 'ok' and isinstance(rs, (list, tuple)) and len(rs) == len(seq):
+            ctx.count('sequence_operand_mixed_layout_cases')
+            for j, rj in enumerate(rs):
+                gj = mv_dict(rj) if hasattr(rj, 'keys') else {0: rj}
+                badj = elem_diff(gj, g1)
+                if badj:
+                    ctx.violation('result depends on operand layout', cid + ['sequence', list(order), j], blades=[alg.bin2canon[k] for k in badj[:6]],
+                                  canonical_result=show_elem({k: g1.get(k, 0) for k in badj[:4]}),
+                                  variant_result=show_elem({k: gj.get(k, 0) for k in badj[:4]}),
+                                  where=f'element {j} of x {op} <{seq_t.__name__} holding the layouts in order {list(order)}>', **wit)
+                    break
+        elif sts == 'exc':
+            ctx.violation('one layout raises, the other returns a value', cid + ['sequence', list(order)], canonical='value', variant=type(rs).__name__,
+                          error=repr(rs)[:200], where='x op <sequence holding both layouts of the second operand>', **wit)
 
 
 def highdim_layout_case(ctx, alg, iso, cfg, name):
